@@ -9,6 +9,7 @@
   that the assembly computes; the theorems compare those trees with the trees of the portable kernels.
 -/
 import Imeta.Gen.AsmDct
+import Imeta.Lemmas.AvxNat
 namespace Imeta.Props.C18
 open Imeta.AvxSem Imeta.Gen.AsmDct
 
@@ -60,5 +61,98 @@ stack frame) are, up to the same two laws, the expressions forwardDCT256 compute
 theorem asm256_computes_go256 :
     (kernel table asmForwardDCT256 256 (inputs 256)).map (·.map normL) = some (((goDct256 goTabs (inputs 256)).map .v).map normL) := by
   decide +kernel
+
+/-! ### from expression trees to every arithmetic that satisfies the two laws -/
+
+/-- the two laws the comparison uses. IEEE-754 addition satisfies `add_comm` exactly (NaN payloads aside) and
+`add_zero`/`zero_add` for every operand except -0, for which (-0) + (+0) = +0. -/
+class LawfulAlg (α : Type) [Alg α] : Prop where
+  add_comm : ∀ a b : α, Alg.add a b = Alg.add b a
+  add_zero : ∀ a : α, Alg.add a Alg.zero = a
+  zero_add : ∀ a : α, Alg.add Alg.zero a = a
+
+variable {α : Type} [Alg α] [LawfulAlg α]
+
+theorem norm_sound (env : Nat → α) (e : Expr) : eval env (norm e) = eval env e := by
+  induction e with
+  | inp k => rfl
+  | cst b => rfl
+  | zero => rfl
+  | add a b iha ihb =>
+    simp only [norm, eval]
+    rw [← iha, ← ihb]
+    generalize norm a = na
+    generalize norm b = nb
+    cases na <;> cases nb <;> simp only [eval] <;> (try split) <;>
+      first
+        | rfl
+        | exact LawfulAlg.add_comm _ _
+        | exact (LawfulAlg.add_zero _)
+        | exact (LawfulAlg.zero_add _)
+        | exact (LawfulAlg.add_zero _).symm
+        | exact (LawfulAlg.zero_add _).symm
+  | sub a b iha ihb => simp only [norm, eval, iha, ihb]
+  | div a b iha ihb => simp only [norm, eval, iha, ihb]
+
+theorem normL_sound (env : Nat → α) (l : Lane Expr) : evalL env (normL l) = evalL env l := by
+  cases l with
+  | v e => simp only [normL, evalL, norm_sound]
+  | i n => rfl
+
+theorem map_normL_sound (env : Nat → α) (l : List (Lane Expr)) : (l.map normL).map (evalL env) = l.map (evalL env) := by
+  simp only [List.map_map]
+  apply List.map_congr_left
+  intro x _
+  exact normL_sound env x
+
+omit [LawfulAlg α] in
+theorem inputs_eval (x : List α) (n : Nat) (hx : x.length = n) : (inputs n).map (eval (fun k => x.getD k Alg.zero)) = x := by
+  apply List.ext_getElem
+  · simp [inputs, hx]
+  · intro i h1 h2
+    simp [inputs, eval, List.getD_eq_getElem?_getD, List.getElem?_eq_getElem h2]
+
+/-- **asmForwardDCT64 = forwardDCT64 in every lawful arithmetic**: for every vector of 64 values the assembly (as
+executed by the lane semantics) returns exactly the values the portable kernel returns. -/
+theorem C18_asm64_eq_go64 (x : List α) (hx : x.length = 64) :
+    kernel table asmForwardDCT64 0 x = some ((goDct64 goTabs x).map .v) := by
+  have hsym := asm64_computes_go64
+  generalize hK : kernel table asmForwardDCT64 0 (inputs 64) = K at hsym
+  cases K with
+  | none => simp at hsym
+  | some k =>
+    simp only [Option.map_some, Option.some.injEq] at hsym
+    let env : Nat → α := fun i => x.getD i Alg.zero
+    have h1 := kernel_natural env table asmForwardDCT64 0 (inputs 64)
+    rw [inputs_eval x 64 hx, hK] at h1
+    rw [h1]
+    simp only [Option.map_some, Option.some.injEq]
+    rw [← map_normL_sound env k, hsym, map_normL_sound]
+    rw [← inputs_eval x 64 hx, goDct64_natural]
+    simp only [List.map_map]
+    apply List.map_congr_left
+    intro a _
+    rfl
+
+/-- **asmForwardDCT256 = forwardDCT256 in every lawful arithmetic.** -/
+theorem C18_asm256_eq_go256 (x : List α) (hx : x.length = 256) :
+    kernel table asmForwardDCT256 256 x = some ((goDct256 goTabs x).map .v) := by
+  have hsym := asm256_computes_go256
+  generalize hK : kernel table asmForwardDCT256 256 (inputs 256) = K at hsym
+  cases K with
+  | none => simp at hsym
+  | some k =>
+    simp only [Option.map_some, Option.some.injEq] at hsym
+    let env : Nat → α := fun i => x.getD i Alg.zero
+    have h1 := kernel_natural env table asmForwardDCT256 256 (inputs 256)
+    rw [inputs_eval x 256 hx, hK] at h1
+    rw [h1]
+    simp only [Option.map_some, Option.some.injEq]
+    rw [← map_normL_sound env k, hsym, map_normL_sound]
+    rw [← inputs_eval x 256 hx, goDct256_natural]
+    simp only [List.map_map]
+    apply List.map_congr_left
+    intro a _
+    rfl
 
 end Imeta.Props.C18
